@@ -42,6 +42,8 @@ def result_fates(prog, body):
         last = c.path.split("::")[-1]
         if c.path.startswith("std::result::Result") and last in FOLLOW:
             continue  # intermediate value of a chain, accounted to the chain's origin
+        if c.local and "svgdx::errors::" in c.path and t.get("args") and "Result<" in str(body.local_ty((op_place(t["args"][0]) or (0,))[0])):
+            continue  # the same for an error-module helper applied to a Result
         if c.decl_path in ("std::ops::FromResidual::from_residual",):
             continue
         dest = P(t["dest"])
@@ -149,6 +151,14 @@ def _fate_of_call_use(prog, body, bb, t, argi, seen):
     if c.decl_path == "std::ops::Try::branch":
         return ("propagated", "`?`")
     is_res = c.path.startswith("std::result::Result") or "std::result::Result<" in c.self_ty
+    if c.local and "svgdx::errors::" in c.path and argi == 0 and t.get("dest"):
+        # a helper of the crate's error module applied to the Result (an extension-trait `or_other()`): like map_err
+        d = P(t["dest"])
+        if d == (0, ()):
+            return ("transformed-returned", f".{last}() returned")
+        if not d[1]:
+            f, det = _fate_of_local(prog, body, d[0], seen)
+            return ("transformed-" + f, f".{last}() then {det}")
     if is_res and argi == 0:
         if last in FOLLOW:
             d = P(t["dest"])
